@@ -541,6 +541,9 @@ pub fn check_recipe_cfgs(r: &Recipe, cfgs: &[usize], stats: &mut Stats) -> Resul
         stats.nontrivial.push(gen::mix(r.a ^ r.b ^ 0x0b5));
         return Ok(());
     }
+    if r.sel[7] < 0x2A80 {
+        return check_far_beyond(r, cfgs, stats);
+    }
     let c = op_case(r);
     stats.class(c.name);
     // both storage back-ends, with and without `compact` (pow uses LARGE_POW5 only without it)
@@ -588,6 +591,79 @@ pub fn check_recipe_cfgs(r: &Recipe, cfgs: &[usize], stats: &mut Stats) -> Resul
     Ok(())
 }
 
+/// Counts FAR beyond the capacity (the statement's last sentence: "when a result does not fit the available
+/// capacity the operation reports failure rather than wrapping, truncating or writing outside its buffer"):
+/// exponents of 5 / 10 / 2 and shift counts taken from the whole u32 range by magnitude - 2^j + d, u32::MAX - d,
+/// multiples of the pow step sizes (135, 27, 13) times 2^8 / 2^16 / 2^24 plus a remainder (where a narrowed step
+/// counter would wrap), random - applied to a small operand on the FIXED-CAPACITY back-end only (the heap
+/// back-end would have to build the number).  The exact result is never computed: it has more than 4100 bits by
+/// construction, so the only acceptable outcome is a reported failure.
+pub fn far_beyond_case(r: &Recipe) -> (Vec<u64>, BigOp, &'static str) {
+    let k = gen::mix(r.b ^ 0xfa4);
+    let x = match r.k[0] % 3 {
+        0 => vec![1],
+        1 => vec![scalar(k)],
+        _ => nonzero(operand(r.a, r.sel[1], true, 3), k),
+    };
+    let step = [27u64, 135, 13, 1][(r.k[1] % 4) as usize];
+    let e: u32 = match r.k[2] % 6 {
+        0 => {
+            let j = 11 + (r.k[3] % 21);
+            (1u32 << j).wrapping_add((r.k[3] >> 8) % 5).wrapping_sub(2)
+        }
+        1 => u32::MAX - (r.k[3] % 64),
+        2 => {
+            let s = [8u32, 16, 24][(r.k[3] % 3) as usize];
+            let m = 1 + ((r.k[3] >> 4) % 8) as u64;
+            (step * (m << s) + ((r.k[3] >> 12) as u64 % (step * 64))).min(u32::MAX as u64) as u32
+        }
+        3 => 2000 + (r.a % (u32::MAX as u64 - 2000)) as u32,
+        4 => 1800 + r.k[3] % 3000,
+        _ => {
+            // a step count of the form 2^16 * m + t: exponent = step * count + remainder
+            let count = (((r.k[3] % 15) as u64 + 1) << 16) + (r.a >> 40) % 70;
+            (step * count + (r.b >> 50) % step.max(1)).min(u32::MAX as u64) as u32
+        }
+    }
+    .max(1800);
+    match (r.k[0] / 3) % 7 {
+        0 => (x, BigOp::Pow5(e), "pow(5^e), e far beyond capacity"),
+        1 => (x, BigOp::BigintPow(5, e), "Bigint::pow(5, e), e far beyond capacity"),
+        2 => (x, BigOp::BigintPow(10, e), "Bigint::pow(10, e), e far beyond capacity"),
+        3 => (x, BigOp::BigintPow(2, e.max(4200)), "Bigint::pow(2, e), e far beyond capacity"),
+        4 => (x, BigOp::PowThenShl(e, e as usize), "pow5 then shl, e far beyond capacity"),
+        5 => (x, BigOp::Shl(4200 + (e as usize % (1 << 24))), "shl, count far beyond capacity"),
+        _ => (x, BigOp::ShlLimbs(63 + (e as usize % (1 << 20))), "shl_limbs, count far beyond capacity"),
+    }
+}
+
+pub fn check_far_beyond(r: &Recipe, cfgs: &[usize], stats: &mut Stats) -> Result<(), Failure> {
+    let (x, op, name) = far_beyond_case(r);
+    for &ci in cfgs {
+        let cfg = &CFGS[ci];
+        if cfg.alloc {
+            continue;
+        }
+        let out = catch(|| (cfg.big_apply)(&x, &op));
+        let what = match out {
+            Ok(BigOut::Failed) => {
+                stats.count("stack:reported-failure-far-beyond-capacity");
+                continue;
+            }
+            Ok(BigOut::Ok { limbs, len, .. }) => format!("reported success (len {len}, value of {} limbs) although the exact result has more than 4100 bits", Nat::from_limbs(&limbs).limbs()),
+            Err(msg) => format!("panicked instead of reporting failure: {msg} at {}", last_panic_location()),
+        };
+        return Err(Failure::violation(
+            format!("config {} (stack): {name}: {:?} on {:?} {what}", cfg.name, op, x),
+            format!("bigint-far-beyond:{}", name),
+            json!({"kind": "bigint-far-beyond", "config": cfg.name, "op": format!("{:?}", op), "op_name": name, "x": full(&x), "what": what}),
+        ));
+    }
+    stats.class("far beyond capacity (must report failure)");
+    stats.nontrivial.push(gen::mix(r.a ^ gen::mix(r.b) ^ 0xfa4 ^ (r.k[2] as u64) << 40 ^ (r.k[3] as u64) << 8));
+    Ok(())
+}
+
 pub fn run(ctx: &Ctx) -> i32 {
     let mut rep = Report::new(
         "One big-integer operation (or one of the short compositions the parser uses) per case, on operands whose \
@@ -599,7 +675,9 @@ pub fn run(ctx: &Ctx) -> i32 {
          4100 bits, normalize, plus observers hi64 / bit_length / is_normalized / compare (normalised or equal-length \
          operands) / from_u64. Rule: result fits 62 limbs => Some(exact) (and normalised where promised); does not \
          fit => the stack back-end must report failure (clean panic for *=), the heap back-end may do either but \
-         never a wrong value. The same cases run in a build with debug assertions, overflow checks and core's \
+         never a wrong value. About 1% of the cases take exponents and shift counts FAR beyond the capacity (whole u32 \
+         range by magnitude, multiples of the pow step sizes times 2^8/2^16/2^24) on the fixed-capacity back-end, \
+         where the only acceptable outcome is a reported failure. The same cases run in a build with debug assertions, overflow checks and core's \
          UB-precondition checks ('writing outside its buffer'). Non-trivial: multi-limb operand or multiplication, \
          result length 60..63, beyond capacity, pow crossing 27/135, or a carry across >= 2 limbs; distinct by \
          recipe fingerprint.",
@@ -610,7 +688,7 @@ pub fn run(ctx: &Ctx) -> i32 {
     let cases = ctx.cases(1_500_000, 150_000_000);
     let r = run_recipes(ctx.seed, cases, ctx.threads, 12, |r, stats| check_recipe(r, stats));
     rep.absorb(r);
-    for k in ["result-length-60..63", "result-beyond-capacity", "pow-crossed-135", "stack:reported-failure", "observer-checks"] {
+    for k in ["result-length-60..63", "result-beyond-capacity", "pow-crossed-135", "stack:reported-failure", "stack:reported-failure-far-beyond-capacity", "observer-checks"] {
         require_counter(&mut rep, k, 1000);
     }
     finish(ctx, rep)
